@@ -48,7 +48,8 @@ class Sched(object):
         self.menus = []        # (n_enabled, running_still_enabled)
         self.trace = []        # (tid, label) executed steps
         self.abort = False
-        self.outcome = None    # 'ok' | 'deadlock' | 'hang'
+        self.outcome = None    # 'ok' | 'deadlock' | 'hang' | 'stuck'
+        self.stuck_after = 20.0
         self._local = threading.local()
 
     # -- API for harness -------------------------------------------------------
@@ -136,11 +137,15 @@ class Sched(object):
             self.trace.append((t.tid, t.label))
             steps += 1
             t.go.release()
-            self.back.acquire()
+            if not self.back.acquire(timeout=self.stuck_after):
+                # the thread blocked inside a real OS primitive (e.g. an uninstrumented lock) instead of
+                # reaching a scheduling point: the schedule cannot continue
+                self.outcome = 'stuck'
+                break
         if self.outcome != 'ok':
             self._kill()
         for t in self.threads:
-            t.thread.join(5)
+            t.thread.join(5 if self.outcome != 'stuck' else 0.05)
         return self.outcome
 
     def _kill(self):
